@@ -525,6 +525,7 @@ func (n *TreeNodeInstance) ProcessProtocolMsg(msg *ProtocolMsg) {
 }
 
 func (n *TreeNodeInstance) notifyDispatch() {
+	verifAt("tni.notify", n)
 	select {
 	case n.msgDispatchQueueWait <- true:
 		return
